@@ -22,7 +22,7 @@ theorem band_nat_one (n : Nat) : evalBin .band (.int n) (.int 1) = .ok (.int ((n
 
 /-! ## waiters -/
 
-theorem call_rcu_wait (fuel : Nat) (env : Env) (inp : List Val) (C : Loc)
+theorem src_call_rcu_wait (fuel : Nat) (env : Env) (inp : List Val) (C : Loc)
     (hc : env.vars "crdp" = some (.ptr C)) :
     ∃ out, exec fuel «call_rcu_wait» env inp = .ok out ∧ WaitPost (.field C "futex") (-1) "futex_async" env out := by
   fx_exec [«call_rcu_wait», WaitPost]
@@ -35,7 +35,7 @@ theorem call_rcu_wait (fuel : Nat) (env : Env) (inp : List Val) (C : Loc)
   unfold LoopPost at h
   loop_post h []
 
-theorem call_rcu_completion_wait (fuel : Nat) (env : Env) (inp : List Val) (C : Loc)
+theorem src_call_rcu_completion_wait (fuel : Nat) (env : Env) (inp : List Val) (C : Loc)
     (hc : env.vars "completion" = some (.ptr C)) :
     ∃ out, exec fuel «call_rcu_completion_wait» env inp = .ok out ∧
       WaitPost (.field C "futex") (-1) "futex_async" env out := by
@@ -63,17 +63,40 @@ macro "wake_leaf" "[" ts:simpLemma,* "]" : tactic => `(tactic| (
      fx_exec [WakePost, $ts,*] <;> fx_abs [] <;> (try (intros; simp_all; done)))
   | (fx_exec [WakePost, $ts,*] <;> fx_abs [] <;> (try (intros; simp_all; done)))))
 
-theorem call_rcu_wake_up (fuel : Nat) (env : Env) (inp : List Val) (C : Loc)
+theorem src_call_rcu_wake_up (fuel : Nat) (env : Env) (inp : List Val) (C : Loc)
     (hc : env.vars "crdp" = some (.ptr C)) (hr : WakeRetOk inp) :
     ∃ out, exec fuel «call_rcu_wake_up» env inp = .ok out ∧ WakePost (.field C "futex") "futex_async" env out := by
   unfold WakeRetOk at hr
   wake_cases (wake_leaf [«call_rcu_wake_up»])
 
-theorem call_rcu_completion_wake_up (fuel : Nat) (env : Env) (inp : List Val) (C : Loc)
+theorem src_call_rcu_completion_wake_up (fuel : Nat) (env : Env) (inp : List Val) (C : Loc)
     (hc : env.vars "completion" = some (.ptr C)) (hr : WakeRetOk inp) :
     ∃ out, exec fuel «call_rcu_completion_wake_up» env inp = .ok out ∧
       WakePost (.field C "futex") "futex_async" env out := by
   unfold WakeRetOk at hr
   wake_cases (wake_leaf [«call_rcu_completion_wake_up»])
+
+/-- `wake_call_rcu_thread(crdp)`: `n` = the value of `crdp->flags`.  Futex-woken helper (`URCU_CALL_RCU_RT` clear): the
+load of the flags (silent) followed by `call_rcu_wake_up`; real-time helper: the load only. -/
+theorem src_wake_call_rcu_thread (fuel : Nat) (env : Env) (inp : List Val) (C : Loc) (n : Nat)
+    (hc : env.vars "crdp" = some (.ptr C))
+    (hf : ∀ f rest, inp = f :: rest → f = .int n)
+    (hr : ∀ f rest, inp = f :: rest → WakeRetOk rest) :
+    ∃ out, exec fuel «wake_call_rcu_thread» env inp = .ok out ∧
+      (n &&& 1 = 0 → WakePost (.field C "futex") "futex_async" env out) ∧
+      (n &&& 1 ≠ 0 → inp ≠ [] →
+        out.events = [.ld (.field C "flags") (.int n) 0] ∧ out.ctl = .normal ∧ out.env.priv = env.priv) := by
+  cases inp with
+  | nil => fx_exec [«wake_call_rcu_thread», WakePost] <;> fx_abs []
+  | cons f inp =>
+    obtain rfl := hf _ _ rfl
+    have hr := hr _ _ rfl
+    unfold WakeRetOk at hr
+    clear hf
+    by_cases hn : n &&& 1 = 0
+    · wake_cases (wake_leaf [«wake_call_rcu_thread», «call_rcu_wake_up», band_nat_one])
+    · have hn2 : ¬ ((n : Int) % 2 = 0) := by have := Nat.and_one_is_mod n; omega
+      have hn3 : ¬ (n % 2 = 0) := by have := Nat.and_one_is_mod n; omega
+      fx_exec [«wake_call_rcu_thread», «call_rcu_wake_up», band_nat_one, WakePost]
 
 end UrcuVerif.Src.Futex
